@@ -1,13 +1,14 @@
 PROP = {
     "id": "C04",
     "theorem_modules": ["Verif.Properties.C04"],
-    "min_theorems": 5,
+    "min_theorems": 6,
     "required_theorems": [
         "Verif.Properties.C04.invalidated",
         "Verif.Properties.C04.invalidated_dead",
         "Verif.Properties.C04.stable",
         "Verif.Properties.C04.stable_copy",
         "Verif.Properties.C04.storage_ref",
+        "Verif.Properties.C04.nested_struct_reference_witness",
     ],
     "streams": [
         {"name": "refinv", "driver": "drv_lang2",
@@ -20,7 +21,7 @@ PROP = {
                  "resource nested in it) + correspondence stream on the real parser's AST in both engines + "
                  "model-independent specification computed by the generator",
     "level_text": "Lean theorems for every state, value and generation: after the transfer (any move) of a resource, every reference taken before to its cell or to a resource-kinded cell nested in it through resource-kinded cells fails on its next use with invalidated-reference (invalidated); a reference to a dead (destroyed) cell fails (invalidated_dead); the move leaves the validity of every reference to a cell outside the moved value exactly as it was, and a deep copy of a non-resource value invalidates nothing (stable, stable_copy); a storage reference yields the value currently at its path iff that value has the borrow type, else the dereference error (storage_ref). Tied to /repo by the stream `refinv`: resource trees nested through an optional field, an array and a dictionary (depth <= 3); references to the root and to nested members taken directly (&x, &x.inner, &x.items[k], &x.m[k], two levels deep) and through other references, laundered through functions so that the checker cannot track them; then moves of the root (declaration, call + return, swap, save + load), children taken out by method calls (also through a reference to the child), swapped, pushed back, kept or destroyed, destroy of the root, non-moving mutations; then one use of every reference the specification says is valid (logging the referent's tag) and one use of a stale one; storage references over unchanged / replaced / emptied / re-typed paths; interpreter and VM; the model evaluator must produce the same observation. Direct oracle independent of the model: the generator's ownership simulation says which uses succeed with which tag and whether the last fails with invalidated-reference (classes stale-reference-usable, valid-reference-unusable).",
-    "level_note": 'proof (fragment L2 heap) + CC, partial: `invalidated` is stated for one transfer; that every move form of the evaluator performs `transfer` on the moved value is by construction of the evaluator and validated by the stream, not a separate theorem; invalidation by `destroy` is proved for the dead cell (invalidated_dead), the marking of nested cells by destroyVal is validated by the stream only. References to non-resource values nested in a moved resource are not invalidated by the Go code (InvalidateReferencedResources skips them) and are not generated. References obtained through capabilities and forEachAttachment are outside the fragment.',
+    "level_note": 'proof (fragment L2 heap) + CC, partial: `invalidated` is stated for one transfer; that every move form of the evaluator performs `transfer` on the moved value is by construction of the evaluator and validated by the stream, not a separate theorem; invalidation by `destroy` is proved for the dead cell (invalidated_dead), the marking of nested cells by destroyVal is validated by the stream only. References to non-resource values nested in a moved resource are not invalidated by the Go code (InvalidateReferencedResources skips them): genuine violation of the property, recorded as known finding nested-non-resource-reference-not-invalidated (generator form ref-nested-struct, witness theorem nested_struct_reference_witness). References obtained through capabilities and forEachAttachment are outside the fragment.',
     "assumptions": ["programs of the fragment (DESIGN 4.1 L0-L2; no attachments, capabilities, interfaces)",
                     "the traversal fuel of the model (heap size + 16) covers the nesting of the moved value"],
     "trusted_base": ["hand-written evaluator Verif.Model.Lang2.Eval validated by stream refinv",
